@@ -110,6 +110,8 @@ def concretise(v, f, wd):
     """argv (without the tool name) and the output format in force for a vector."""
     tool = v["tool"]
     default_fmt = "opb" if tool == "pbgen" else "dimacs"
+    if v["dev"] == "large_valid":
+        return (["--output-format", v["fmt"]] if v["fmt"] != "default" else []) + list(v["valid"]), v["fmt"]
     if v["dev"] == "graph_spec_grid":
         return [v["name"]] + list(v["valid"]), default_fmt
     if v["dev"] == "build_refusal":
